@@ -374,7 +374,7 @@ def onObs (t : T) (x : Obs) : T :=
     -- a token handed out a second time: finding F12 when a generation can have wrapped (65536 reuses of one slot),
     -- otherwise the list lost a slot's generation
     let t := if t.issued.contains tok then
-        (if t.handouts ≥ 65536 then { t with f12 := true }
+        (if t.handouts ≥ 65537 then { t with f12 := true }
          else
            let t := t.flag .C06 s!"the registration token {tok.id}.{tok.ver} was handed out a second time after only {t.handouts} slot hand-outs (no generation wrap): the first holder's token is valid again"
            t.flag .C01 s!"the registration token {tok.id}.{tok.ver} was handed out a second time after only {t.handouts} slot hand-outs: two sources answer to one token")
